@@ -99,7 +99,12 @@ class Creators:
       if gfapy.is_placeholder(key):
         key = id(gfa_line)
       elif isinstance(key, str) and key.isascii() and key.isdigit():
-        keynum = int(key)
+        try:
+          keynum = int(key)
+        except ValueError:
+          # more digits than Python converts (sys.get_int_max_str_digits):
+          # such a name cannot collide with a generated one
+          keynum = 0
         if keynum > self._max_int_name:
           self._max_int_name = keynum
       self._records[gfa_line.record_type][key] = gfa_line
